@@ -39,6 +39,9 @@ def run(m, chk):
             have = r.deep_dep(ctx, v, heap=ctx.ret_states[nid].heap)
             miss = [w for w in r.srcs(ctx.fi, need) if not R.dep_has(have, w)]
             chk.ob("DEP-MAY", f"{D + f}: result depends on {', '.join(need)}", not miss, loc=r.loc(ctx, ctx.cfg.nodes[nid].ast), detail="" if not miss else f"{D + f}: the derivative does not depend on {r.fmt_deps(ctx.fi, miss)}", func=D + f, construct=f"ignores {r.fmt_deps(ctx.fi, miss)}")
+    from .extra import interval_from_operand
+
+    interval_from_operand(r, chk, [D + f for f in ("curve", "nonrational_bezier", "rational_bezier", "nonrational_spline")], floor=4)
     # degree-0 branch
     ctx = r.root(D + "curve")
     zero_tests = [n for n in r.stmt_nodes(ctx) if n.kind == "test" and "degree == 0" in seg(n.ast)]
